@@ -28,6 +28,10 @@ theorem Frame.trans {a b c : St α} (h1 : Frame a b) (h2 : Frame b c) : Frame a 
    h2.srcStIno.trans h1.srcStIno, h2.userAbort.trans h1.userAbort, h2.destOpen.trans h1.destOpen,
    h2.srcOpen.trans h1.srcOpen, h2.dirOpen.trans h1.dirOpen, fun h => h2.exitMono (h1.exitMono h), fun h => h1.mainMono (h2.mainMono h)⟩
 
+/-- the block counter is not part of a frame -/
+theorem Frame.ofBlk {s s' : St α} {n : Nat} (f : Frame { s with blk := n } s') : Frame s s' :=
+  ⟨f.trace, f.fs, f.k, f.destStIno, f.srcStIno, f.userAbort, f.destOpen, f.srcOpen, f.dirOpen, f.exitMono, f.mainMono⟩
+
 /-- program counters at which io_close's dispatchers can stop -/
 def Pc.closing : Pc → Bool
   | .done | .closeSrc | .closeDir | .closeDest | .fchownUid | .fsyncFile | .tailSeek => true
@@ -67,7 +71,8 @@ theorem frame_closeBlock (s : St α) : Frame s (closeBlock c s) ∧ (closeBlock 
   unfold closeBlock
   split
   · exact ⟨⟨rfl, rfl, rfl, rfl, rfl, rfl, rfl, rfl, rfl, id, id⟩, rfl, rfl⟩
-  · exact frame_closeDestPhase c s
+  · have := frame_closeDestPhase c { s with blk := s.blk + 1 }
+    exact ⟨this.1.ofBlk, this.2.1, this.2.2⟩
 
 theorem frame_ioClose (s : St α) : Frame s (ioClose c s) ∧ (ioClose c s).pc.closing = true ∧
     (ioClose c s).success = s.success := by
@@ -87,7 +92,7 @@ theorem frame_openDestErr (s : St α) : Frame s (openDestErr c s) ∧ (openDestE
   unfold openDestErr
   split
   · exact ⟨⟨rfl, rfl, rfl, rfl, rfl, rfl, rfl, rfl, rfl, id, id⟩, rfl⟩
-  · have := frame_ioFail c s; exact ⟨this.1, closing_landing this.2.1⟩
+  · have := frame_ioFail c { s with blk := s.blk - 1 }; exact ⟨this.1.ofBlk, closing_landing this.2.1⟩
 
 theorem frame_finish (s : St α) : Frame s (finish c s) ∧ (finish c s).pc.landing = true := by
   unfold finish
@@ -734,7 +739,7 @@ theorem afterWrite_origin (s : St α) : (afterWrite c s).pc.isCloseD = true → 
 theorem openDestErr_success (s : St α) (hs : s.success = false) : (openDestErr c s).success = false := by
   unfold openDestErr; split
   · exact hs
-  · exact ioFail_success c s
+  · exact ioFail_success c _
 
 /-- only afterAttrs can stop at fsyncFile -/
 theorem closeDestPhase_ne_fsyncFile (s : St α) : (closeDestPhase c s).pc ≠ .fsyncFile := by
@@ -743,7 +748,7 @@ theorem closeDestPhase_ne_fsyncFile (s : St α) : (closeDestPhase c s).pc ≠ .f
 theorem closeBlock_ne_fsyncFile (s : St α) : (closeBlock c s).pc ≠ .fsyncFile := by
   unfold closeBlock; split
   · simp
-  · exact closeDestPhase_ne_fsyncFile c s
+  · exact closeDestPhase_ne_fsyncFile c _
 theorem ioClose_ne_fsyncFile (s : St α) : (ioClose c s).pc ≠ .fsyncFile := by
   unfold ioClose; split
   · simp
@@ -811,6 +816,6 @@ theorem afterWrite_ne_fsyncFile (s : St α) : (afterWrite c s).pc ≠ .fsyncFile
 theorem openDestErr_ne_fsyncFile (s : St α) : (openDestErr c s).pc ≠ .fsyncFile := by
   unfold openDestErr; split
   · simp
-  · exact ioFail_ne_fsyncFile c s
+  · exact ioFail_ne_fsyncFile c _
 
 end XzVerif.XzIo
